@@ -661,8 +661,11 @@ def Pool.engageAt (p : Pool) (base size elemsz : Nat) : Pool :=
 def engageAtP (m : Links) (head base size elemsz : Nat) : Links :=
   engageLoopP elemsz (base + size) head (size + 1) base m
 
-/-- the two `assert`s of `pool_engage` (after `fix: pool_engage() asserts that a cell can hold the
-free-list link`): `assert(elemsz >= sizeof(struct slist_head)); assert(size % elemsz == 0);` -/
+/-- the two `assert`s on the way into `pool_engage` through `igris::pool::init`:
+`assert(elsize >= sizeof(struct slist_head))` (`init`, after
+`fix: igris::pool::init() asserts that a cell can hold the free-list link`) and
+`assert(size % elemsz == 0)` (`pool_engage`).  For the C function `pool_engage` itself
+`elemsz >= sizeof(struct slist_head)` is its documented precondition. -/
 def engageRefused (size elemsz : Nat) : Bool := elemsz < 8 || size % elemsz != 0
 
 structure Zone where
